@@ -19,7 +19,7 @@ RULE = ("set-ups in a Cartesian system: (Stokes) closed curve vs spanning surfac
 ASSUMPTIONS = ["mpmath.quad of the integrand pulled back with plain sympy subs/diff (no library code) is the reference value",
                "a SymPy integrate() that stalls (watchdog) is inconclusive"]
 N = {"quick": 48, "thorough": 640}
-MIN_REACH = {"quick": {"stokes": 12, "green": 8, "gauss": 8, "quadrature": 25, "reparametrisation": 5, "free_symbols": 40},
+MIN_REACH = {"quick": {"dependent_limits": 2, "region_reparametrised": 6, "stokes": 12, "green": 8, "gauss": 8, "quadrature": 25, "reparametrisation": 5, "free_symbols": 40},
              "thorough": {"stokes": 150, "green": 100, "gauss": 100}}
 SHARD_TIMEOUT = {"quick": 900, "thorough": 3300}
 mpmath.mp.dps = 25
@@ -111,7 +111,7 @@ def stokes_setup(run: Run, cs, idx):
     t, s = sympy.symbols("t s", real=True)
     bs = cs.coord_system.base_scalars()
     symbolic = idx % 3 == 0
-    shape = r.choice(["ellipse", "ellipse", "tilted", "cone", "rectangle"])
+    shape = r.choice(["ellipse", "tilted", "cone", "rectangle", "triangle", "triangle", "disc-cartesian"])
     F, coefs = make_field(r, cs, trig=(shape == "rectangle" and r.random() < 0.5), symbolic=symbolic)
     coefvals = {c: sympy.Rational(r.randint(-30, 30), 10) for c in coefs}
     field = VectorField.from_vector(Vector(F, cs))
@@ -122,7 +122,30 @@ def stokes_setup(run: Run, cs, idx):
     case = {"theorem": "stokes", "shape": shape, "field": [str(c) for c in F], "centre": [str(cx), str(cy)], "R": str(R), "ab": [a, b], "z0": z0,
             "coefficients": {str(k): str(v) for k, v in coefvals.items()}}
     forbidden = list(bs) + [t, s]
-    if shape == "rectangle":
+    if shape in ("triangle", "disc-cartesian"):
+        # surfaces whose inner integration limits depend on the outer parameter
+        u, v = sympy.symbols("u v", real=True)
+        forbidden = forbidden + [u, v]
+        if shape == "triangle":
+            w_ = a  # triangle (cx,cy) -> (cx+w,cy) -> (cx+w,cy+w)
+            segs = [([cx + w_ * t, cy, z0], 0, 1), ([cx + w_, cy + w_ * t, z0], 0, 1), ([cx + w_ - w_ * t, cy + w_ - w_ * t, z0], 0, 1)]
+            parts = [run.call("circulation_along_curve", lambda g=g: A.circulation_along_curve(field, g, (t, lo, hi)), case) for g, lo, hi in segs]
+            if any(p_ is None for p_ in parts):
+                return
+            circ = sum(parts)
+            # u from its lower bound (depending on v) to the right edge; v over the height
+            surf = run.call("circulation_along_surface_boundary[dependent limits]",
+                            lambda: A.circulation_along_surface_boundary(field, [u, v, z0], (u, cx + (v - cy), cx + w_), (v, cy, cy + w_)), case)
+            want = sum(quad_curve(F, bs, g, t, lo, hi, coefvals) for g, lo, hi in segs)
+        else:
+            gamma = [cx + R * cos(t), cy + R * sin(t), z0]
+            circ = run.call("circulation_along_curve", lambda: A.circulation_along_curve(field, gamma, (t, 0, 2 * pi)), case)
+            half = sympy.sqrt(R**2 - (v - cy) ** 2)
+            surf = run.call("circulation_along_surface_boundary[dependent limits]",
+                            lambda: A.circulation_along_surface_boundary(field, [u, v, z0], (u, cx - half, cx + half), (v, cy - R, cy + R)), case)
+            want = quad_curve(F, bs, gamma, t, 0, 2 * mpmath.pi, coefvals)
+        rec.hit("dependent_limits")
+    elif shape == "rectangle":
         x0, x1, y0, y1 = cx, cx + a, cy, cy + b
         segs = [([x0 + (x1 - x0) * t, y0, z0], 0, 1), ([x1, y0 + (y1 - y0) * t, z0], 0, 1), ([x1 - (x1 - x0) * t, y1, z0], 0, 1), ([x0, y1 - (y1 - y0) * t, z0], 0, 1)]
         parts = [run.call("circulation_along_curve", lambda g=g: A.circulation_along_curve(field, g, (t, lo, hi)), case) for g, lo, hi in segs]
@@ -236,6 +259,20 @@ def green_setup(run: Run, cs, idx):
     if not close(v1, want, "1e-8"):
         rec.violation("quadrature:flux", f"flux_across_curve = {v1} but own quadrature of F.n ds = {want}", case)
         return
+    # the divergence integral must not depend on how the region is parametrised (orientation of the parameters, their order)
+    variants = {"clockwise-angle": ([cx + a * s * sin(t), cy + b * s * cos(t)], (s, 0, R), (t, 0, 2 * pi)),
+                "angle-as-first-parameter": ([cx + a * s * cos(t), cy + b * s * sin(t)], (t, 0, 2 * pi), (s, 0, R))}
+    vname = ("clockwise-angle", "angle-as-first-parameter")[idx % 2]
+    sig, l1, l2 = variants[vname]
+    fv = run.call(f"flux_across_surface_boundary[{vname}]", lambda: A.flux_across_surface_boundary(field, sig, l1, l2), case)
+    if fv is not None:
+        rec.hit("region_reparametrised")
+        try:
+            if not close(numeric(fv, coefvals), v2, "1e-8"):
+                rec.violation(f"green:region-parametrisation:{vname}", f"divergence integral over the same region parametrised {vname} gives {numeric(fv, coefvals)} instead of {v2}", dict(case, variant=vname))
+                return
+        except ValueError:
+            pass
     if idx % 2 == 0 and not symbolic:
         u = sympy.Symbol("u", real=True)
         rec.hit("reparametrisation")
